@@ -86,6 +86,8 @@ type Recorder struct {
 	Resumed  int
 	ClosedCh chan struct{}
 	once     sync.Once
+	// ReuseSlice makes Write behave like a caller that refills its argument slice as soon as the call returned.
+	ReuseSlice bool
 }
 
 type HookChunk struct {
@@ -155,7 +157,21 @@ func (r *Recorder) Write(ctx context.Context, up *iscp.Upstream, writer int, id 
 	r.Writes = append(r.Writes, rec)
 	r.mu.Unlock()
 	idc := id
+	if r.ReuseSlice {
+		// the caller owns its slice again as soon as the call has returned: pass a slice with spare capacity and
+		// overwrite every element (and the spare slot) with a poison point straight afterwards
+		scratch := make([]*message.DataPoint, len(dps), len(dps)+1)
+		copy(scratch, dps)
+		dps = scratch
+	}
 	err := up.WriteDataPoints(ctx, &idc, dps...)
+	if r.ReuseSlice {
+		poison := &message.DataPoint{ElapsedTime: -7, Payload: []byte("POISON: written by the caller into its own slice after WriteDataPoints returned")}
+		dps = dps[:cap(dps)]
+		for i := range dps {
+			dps[i] = poison
+		}
+	}
 	r.mu.Lock()
 	rec.Return = r.Clock.Tick()
 	rec.ReturnVT = time.Now()
